@@ -171,3 +171,89 @@ func VerifHTMLInlineSpaces(n int) {
 	}
 	vReach("end")
 }
+
+// VerifHTMLSpaceBeforeInline (C03): `<p>a <X>b</X></p><p>c</p>` and variants where the inline element is the LAST thing of
+// its block: the space between the text and the inline element is rendered ("a b") and must survive, whatever follows
+// the inline element (a block start tag, a block end tag, the end of the document).
+func VerifHTMLSpaceBeforeInline(n int) {
+	inl := []string{"span", "b", "i", "em", "a", "code", "img", "input", "svg", "math", "button", "label", "sub", "sup", "q", "cite", "abbr", "time", "mark", "small", "strong", "u", "s", "kbd", "var", "samp", "bdo", "bdi", "data", "dfn", "object", "video", "audio", "canvas", "select", "textarea", "meter", "progress", "output", "ruby", "ins", "del", "map", "font", "tt", "big", "x-custom"}
+	name := inl[vChoice("el", len(inl))]
+	var el string
+	switch name {
+	case "img", "input":
+		el = "<" + name + ">"
+	case "svg":
+		el = "<svg><path d=\"M0 0\"/></svg>"
+	case "math":
+		el = "<math><mi>m</mi></math>"
+	case "select":
+		el = "<select><option>b</select>"
+	case "audio", "video":
+		el = "<" + name + " controls></" + name + ">"
+	default:
+		el = "<" + name + ">b</" + name + ">"
+	}
+	tmpl := [][2]string{{"<p>a ", "</p><p>c</p>"}, {"<div>a ", "</div>"}, {"<p>a ", "</p>"}, {"<div><p>a ", "</div>"}, {"<li>a ", "</li><li>c</li>"}, {"<td>a ", "</td>"}, {"<h1>a ", "</h1>x"}, {"<p>a ", "<div>c</div>"}, {"a ", ""}}[vChoice("tmpl", 9)]
+	in := []byte(tmpl[0] + el + tmpl[1])
+	w := &vWriter{}
+	err := (&Minifier{}).Minify(verifOptM(), w, &vReader{b: append(make([]byte, 0, len(in)+1), in...)}, nil)
+	vReach("after-call")
+	vOutput("out", w.buf)
+	vAssert(err == nil, "no error")
+	vAssert(rhIndex(w.buf, "a <"+name) >= 0, "the space between text and an inline element that ends its block is kept: "+string(in)+" => "+string(w.buf))
+	vReach("end")
+}
+
+// Enumerated attributes (HTML: "keywords and enumerated attributes"): the value selects a state and must survive (up
+// to ASCII case and surrounding white space); none of these is a boolean attribute.
+var verifEnumAttrs = [][3]string{
+	{"div", "hidden", "until-found"}, {"div", "contenteditable", "plaintext-only"}, {"div", "contenteditable", "false"}, {"div", "draggable", "false"}, {"div", "spellcheck", "false"}, {"div", "translate", "no"},
+	{"input", "autocomplete", "off"}, {"div", "dir", "rtl"}, {"img", "loading", "lazy"}, {"img", "decoding", "async"}, {"img", "crossorigin", "use-credentials"}, {"a", "referrerpolicy", "no-referrer"},
+	{"textarea", "wrap", "hard"}, {"th", "scope", "col"}, {"ol", "type", "a"}, {"ol", "type", "A"}, {"button", "type", "button"}, {"button", "type", "reset"}, {"input", "type", "checkbox"}, {"form", "method", "post"}, {"form", "method", "dialog"},
+	{"form", "enctype", "multipart/form-data"}, {"div", "popover", "manual"}, {"div", "inputmode", "numeric"}, {"div", "enterkeyhint", "go"}, {"track", "kind", "captions"}, {"video", "preload", "none"}, {"link", "as", "font"}, {"script", "fetchpriority", "high"},
+	{"div", "autocapitalize", "words"}, {"area", "shape", "circle"}, {"td", "colspan", "2"}, {"td", "rowspan", "0"}, {"col", "span", "2"}, {"ol", "start", "0"}, {"li", "value", "0"}, {"input", "step", "any"}, {"template", "shadowrootmode", "open"},
+}
+
+// VerifHTMLEnumAttr (C03): <EL ATTR=VALUE> for 38 enumerated / numeric attributes with a non-default value, three
+// quotings and optional surrounding spaces: the attribute keeps that value.
+func VerifHTMLEnumAttr(n int) {
+	e := verifEnumAttrs[vChoice("attr", len(verifEnumAttrs))]
+	q := []string{"", "\"", "'"}[vChoice("quote", 3)]
+	pad := ""
+	if q != "" && vBool("pad") {
+		pad = " "
+	}
+	in := []byte("<" + e[0] + " " + e[1] + "=" + q + pad + e[2] + pad + q + ">t")
+	o := &Minifier{KeepDefaultAttrVals: vBool("KeepDefaultAttrVals"), KeepQuotes: vBool("KeepQuotes")}
+	out, err := verifHTMLRun(append(make([]byte, 0, len(in)+1), in...), o)
+	vReach("after-call")
+	vOutput("out", out)
+	vAssert(err == nil, "accepted")
+	_, attrs, _, ok := rhStartTag(out)
+	vAssert(ok, "output starts with a complete start tag")
+	found := false
+	for _, a := range attrs {
+		if rhEq(a.name, []byte(e[1])) {
+			found = true
+			got := rhTrim(a.val)
+			same := len(got) == len(e[2])
+			for i := 0; same && i < len(got); i++ {
+				x, y := got[i], e[2][i]
+				if e[1] != "type" || e[0] != "ol" { // ol type is case-sensitive
+					if 'A' <= x && x <= 'Z' {
+						x += 32
+					}
+					if 'A' <= y && y <= 'Z' {
+						y += 32
+					}
+				}
+				if x != y {
+					same = false
+				}
+			}
+			vAssert(same, "enumerated attribute keeps its value: "+string(in)+" => "+string(out))
+		}
+	}
+	vAssert(found, "attribute with a non-default value kept: "+string(in)+" => "+string(out))
+	vReach("end")
+}
